@@ -51,8 +51,10 @@ class World:
         self.model = Model(self.sb, self.cache)
         self.api = ModelAPI(self.model)
         self.steps = []          # concrete history (for replay)
-        # dirs that exist only for the cache file are masked in comparisons (C04 latitude)
-        self.cache_dirs = [a for a in ancestors(self.cache) if a.startswith(self.sb + '/')]
+        # (until the D16 repair, directories that exist only for the cache file were masked in
+        #  comparisons as "C04 latitude"; the view is specified - they are not part of it - so nothing
+        #  is masked any more)
+        self.cache_dirs = []
 
     def ap(self, r):
         return os.path.join(self.sb, r) if r else self.sb
